@@ -123,6 +123,58 @@ def run_sharded(worker, shards, jobs):
         return pool.map(worker, shards, chunksize=1)
 
 
+def _hist_worker(job):
+    modname, qualname, calls, reverse = job
+    import importlib
+    import types
+    f = importlib.import_module(modname)
+    for part in qualname.split("."):
+        f = getattr(f, part)
+    idx = list(range(len(calls)))
+    if reverse:
+        idx.reverse()
+    out = {}
+    for i in idx:
+        a, k = calls[i]
+        try:
+            v = f(*a, **k)
+            if isinstance(v, types.GeneratorType):
+                v = list(v)
+            out[i] = repr(("ok", v))
+        except RecursionError:
+            out[i] = repr(("exc", "RecursionError"))
+        except Exception as e:  # noqa
+            out[i] = repr(("exc", type(e).__name__, str(e)[:200]))
+    return out
+
+
+def history_independence_many(col, specs, clause="result-independent-of-call-history", procs=16):
+    """specs: [(fn_label, modname, qualname, calls)].  The same calls, made in one order in one fresh process and in the opposite order in
+    another: a result may depend on its arguments only (catches memo tables keyed too coarsely, shared scratch buffers, state left behind
+    by an early return)"""
+    import multiprocessing as mp
+    if not specs:
+        return
+    ctx = mp.get_context("fork")
+    jobs = []
+    for (label, mod, qual, calls) in specs:
+        jobs.append((mod, qual, calls, False))
+        jobs.append((mod, qual, calls, True))
+    with ctx.Pool(min(procs, len(jobs)), maxtasksperchild=1) as pool:
+        res = pool.map(_hist_worker, jobs, chunksize=1)
+    for n, (label, mod, qual, calls) in enumerate(specs):
+        fwd, rev = res[2 * n], res[2 * n + 1]
+        for i, (a, k) in enumerate(calls):
+            col.count(clause)
+            if fwd[i] != rev[i]:
+                col.violation(clause, label, {"args": jsonable(list(a)), "kwargs": jsonable(k)},
+                              {"this order": fwd[i], "fresh process, opposite order": rev[i]}, "equal")
+
+
+def history_independence(col, fn_label, modname, qualname, calls, clause="result-independent-of-call-history"):
+    history_independence_many(col, [(fn_label, modname, qualname, calls)], clause)
+
+
 def call(f, *a, **k):
     """call returning ('ok', value) or ('exc', ExcTypeName, message)"""
     try:
